@@ -352,11 +352,14 @@ def St.setRef (st : St) (p : Path) (name : String) (v : Nat) : Option St :=
       | some .space => none
       | _ => st.newRef p name v
 
-/-- `ModelImpl.set_attr`: refused when a top-level space bears the name (and for invalid names:
-`Model.__setattr__` checks `is_valid_name`); no check against the members of any space -/
+/-- `model.name = value`: `EditableParent.__setattr__` (modelx/core/parent.py) hands every name that is no
+property of the interface class to `ModelImpl.set_attr`, which refuses the name of a top-level space
+(`KeyError`), changes an existing model-level reference, and otherwise creates one.  There is NO
+`is_valid_name` test on this path (`UserSpaceImpl.set_attr` has one): `model._x = 1`, `model._self = 1`,
+`setattr(model, "for", 1)` are accepted and the name is then visible in the namespace of every space.
+No check against the members of any space either. -/
 def St.setGlobal (st : St) (name : String) : Option St :=
   if (st.childNames []).contains name then none
-  else if !Names.isValidName kw name then none
   else some { st with globals := if st.globals.contains name then st.globals else st.globals ++ [name] }
 
 /-- `ModelImpl.del_attr` for a model-level reference -/
@@ -444,7 +447,7 @@ def St.apply (st : St) : Op → Option St
   | .removeBases p bs => st.removeBases p bs
   | .setRef p name v => st.setRef kw p name v
   | .delRef p name => st.delMember .refs p name
-  | .setGlobal name => st.setGlobal kw name
+  | .setGlobal name => st.setGlobal name
   | .delGlobal name => st.delGlobal name
 
 /-- a rejected operation leaves the state as it is -/
